@@ -12,9 +12,10 @@ os.environ.setdefault('VERIF_REPO', '/repo')
 props = [json.loads(l)['id'] for l in open(os.path.join(VERIF, 'properties.jsonl'))]
 checks = []
 claimed = set()
+listed = set(open(os.path.join(VERIF, 'tools', 'claimed.txt')).read().split())
 for pid in props:
     path = os.path.join(VERIF, 'props', pid.lower() + '.py')
-    if not os.path.exists(path):
+    if not os.path.exists(path) or pid not in listed:
         continue
     m = importlib.import_module('props.' + pid.lower())
     if m.META.get('disabled'):
